@@ -65,7 +65,7 @@ def verify_keymap() -> None:
 
 
 def rs_setup_ops(scn: Dict[str, Any], slot: int = 0) -> List[list]:
-    ops: List[list] = [["m.new", slot, {}]]
+    ops: List[list] = [["m.new", slot, {"por": bool(scn.get("por"))}]]
     rom = [0] * ROM_SIZE
     tail = scn["prog"]["rom_tail"]
     rom[ROM_SIZE - 6:] = tail
@@ -122,10 +122,36 @@ def run_rs_machine(scn: Dict[str, Any]) -> Dict[str, Any]:
         events.extend(rs_event(op, slot, scn, scratch_dir()))
     lo, hi = scn["prog"]["code"]
     ops.append(["m.run", slot, scn["boundaries"], events, scn.get("watch", []), lo, hi])
+    if scn.get("final_state"):
+        ops += [["m.lcd", slot], ["m.kbstate", slot], ["m.timerstate", slot], ["m.read", slot, 0x100000, 256]]
     out = host().call(ops)
-    res = out[-1]
-    return {"obs": res["obs"], "err": res["err"], "evout": res["evout"],
+    res = out[0]
+    hist = {"obs": res["obs"], "err": res["err"], "evout": res["evout"],
             "preobs": {str(k): o for k, o in res["preobs"]}}
+    if scn.get("final_state"):
+        lcd, kb, tm, imem = out[1], out[2], out[3], out[4]
+        snap = (kb or {}).get("snap") or {}
+        hist["final"] = {
+            "lcd": {"meta": _canon_lcd_meta((lcd or {}).get("meta")), "vram": (lcd or {}).get("vram"),
+                    "pixels": (lcd or {}).get("pixels")},
+            "kb": {"fifo": (kb or {}).get("fifo"), "kol": snap.get("kol"), "koh": snap.get("koh"),
+                   "pressed": sorted(snap.get("pressed_keys") or []),
+                   "keys": {k: [v["pressed"], v["debounced"], v["press_ticks"], v["release_ticks"], v["repeat_ticks"]]
+                            for k, v in sorted((snap.get("key_states") or {}).items())
+                            if v["pressed"] or v["debounced"]}},
+            "timer": {k: tm.get(k) for k in ("enabled", "mti", "sti", "next_mti", "next_sti", "kb_irq")},
+            "imem": imem,
+        }
+    return hist
+
+
+def _canon_lcd_meta(meta):
+    if not isinstance(meta, dict):
+        return meta
+    chips = []
+    for c in meta.get("chips", []) or []:
+        chips.append({k: c.get(k) for k in ("on", "start_line", "page", "y_address")})
+    return {"chips": chips}
 
 
 # ----------------------------------------------------------------------------------------
@@ -266,7 +292,7 @@ def py_apply_op(emu, op: list, scn: Dict[str, Any]):
         emu.save_snapshot(path)
         fresh = build_py_fresh(scn)
         try:
-            fresh.load_snapshot(path)
+            quiet_load(fresh, path)
         finally:
             try:
                 os.remove(path)
@@ -280,6 +306,14 @@ def py_apply_op(emu, op: list, scn: Dict[str, Any]):
         emu.cpu.regs.call_sub_level = int(op[3])
         return emu
     raise HarnessError(f"unknown machine op {kind}")
+
+
+def quiet_load(emu, path: str) -> None:
+    """load_snapshot prints backend-mismatch warnings; keep check output clean."""
+    import contextlib
+    import io
+    with contextlib.redirect_stdout(io.StringIO()):
+        emu.load_snapshot(path)
 
 
 def build_py_fresh(scn: Dict[str, Any]):
@@ -342,7 +376,35 @@ def run_py_machine(scn: Dict[str, Any]) -> Dict[str, Any]:
             extra = {"tap": list(first) if first else None, "frame": frame}
         o.append(extra)
         obs.append(o)
-    return {"obs": obs, "err": err, "evout": evout, "preobs": preobs}
+    hist = {"obs": obs, "err": err, "evout": evout, "preobs": preobs}
+    if scn.get("final_state"):
+        hist["final"] = py_final(emu)
+    return hist
+
+
+def py_final(emu) -> Dict[str, Any]:
+    snap = emu.lcd.get_snapshot()
+    vram: List[int] = []
+    for chip in snap.chips:
+        for row in chip.vram:
+            vram.extend(int(v) & 0xFF for v in row)
+    buf = emu.lcd.get_display_buffer()
+    pixels = ["".join("1" if int(v) else "0" for v in row) for row in buf]
+    mx = emu.keyboard._matrix
+    ks = mx.snapshot_state()
+    return {
+        "lcd": {"meta": {"chips": [{"on": bool(c.on), "start_line": int(c.start_line), "page": int(c.page),
+                                    "y_address": int(c.y_address)} for c in snap.chips]},
+                "vram": vram, "pixels": pixels,
+                "busy": [bool(c.state.busy) for c in emu.lcd.chips]},
+        "kb": {"fifo": list(mx.fifo_snapshot()), "kol": ks["kol"], "koh": ks["koh"],
+               "pressed": sorted(ks["pressed_keys"]),
+               "keys": {k: [v["pressed"], v["debounced"], v["press_ticks"], v["release_ticks"], v["repeat_ticks"]]
+                        for k, v in sorted(ks["key_states"].items()) if v["pressed"] or v["debounced"]}},
+        "timer": {"enabled": bool(emu._timer_enabled), "mti": emu._timer_mti_period, "sti": emu._timer_sti_period,
+                  "next_mti": emu._timer_next_mti, "next_sti": emu._timer_next_sti, "kb_irq": bool(emu._kb_irq_enabled)},
+        "imem": [_py_imem(emu, i) for i in range(256)],
+    }
 
 
 def run_machine(scn: Dict[str, Any]) -> Dict[str, Any]:
